@@ -54,7 +54,9 @@ func subtract(_ *dataTreeNavigator, context Context, lhs *CandidateNode, rhs *Ca
 		if rhs.Kind != SequenceNode {
 			return nil, fmt.Errorf("%v (%v) cannot be subtracted from %v", rhs.Tag, rhs.GetNicePath(), lhs.Tag)
 		}
-		target.Content = subtractArray(lhs, rhs)
+		// the kept elements become children of the new array (copies): as elements of the old one,
+		// a later del or assignment addressed at the result would reach into the source
+		target.AddChildren(subtractArray(lhs, rhs))
 	case ScalarNode:
 		if rhs.Kind != ScalarNode {
 			return nil, fmt.Errorf("%v (%v) cannot be subtracted from %v", rhs.Tag, rhs.GetNicePath(), lhs.Tag)
